@@ -988,15 +988,17 @@ func opcodeSplit(op *ParsedOpcode, t *thread) error {
 		return err
 	}
 
-	if n.Int32() > int32(len(c)) {
+	// Int64 saturates, so numbers beyond 64 bits cannot wrap into range.
+	pos := n.Int64()
+	if pos > int64(len(c)) {
 		return errs.NewError(errs.ErrNumberTooBig, "n is larger than length of array")
 	}
-	if n.LessThanInt(0) {
+	if pos < 0 {
 		return errs.NewError(errs.ErrNumberTooSmall, "n is negative")
 	}
 
-	a := c[:n.Int()]
-	b := c[n.Int():]
+	a := c[:pos]
+	b := c[pos:]
 	t.dstack.PushByteArray(a)
 	t.dstack.PushByteArray(b)
 
